@@ -756,7 +756,7 @@ func (x *Unit) havocForLoop(st *State, ms *modSet, loop ast.Stmt) {
 			newN := x.get(st, "TL:"+k)
 			x.assumes = append(x.assumes, "(>= "+newN.S+" "+oldN.S+")")
 			for c := range x.compSorts {
-				if strings.HasPrefix(c, "TA:"+k+":") || strings.HasPrefix(c, "TR:"+k+":") || c == "TT:"+k {
+				if strings.HasPrefix(c, "TA:"+k+":") || strings.HasPrefix(c, "TR:"+k+":") || c == "TT:"+k || c == "TP:"+k {
 					oldA := x.get(st, c)
 					x.havocComp(st, c)
 					newA := x.get(st, c)
